@@ -154,3 +154,241 @@ func desugarMinMaxCmps(p *Prog) int {
 	}
 	return n
 }
+
+// desugarFlagPolarity: a boolean local defined once as a disjunction (`isNew := !known || count <= index`) and tested
+// afterwards is the negation of the flag the spec's wording suggests (`exists := known && index < count`). The one whose
+// definition is a conjunction once negations are pushed inwards is taken as the normal form: the definition is replaced
+// by the negation of its right-hand side in negation normal form and every use `f` by `!f` (`!f` by `f`). Only the
+// polarity changes; the variable stays. Returns the number of flags turned round.
+func desugarFlagPolarity(p *Prog) int {
+	n := 0
+	for _, pk := range p.Pkgs {
+		info := pk.TypesInfo
+		boolTV := func(like ast.Expr) types.TypeAndValue {
+			tv := info.Types[like]
+			tv.Value = nil
+			if tv.Type == nil {
+				tv.Type = types.Typ[types.Bool]
+			}
+			return tv
+		}
+		flipCmp := map[token.Token]token.Token{token.EQL: token.NEQ, token.NEQ: token.EQL, token.LSS: token.GEQ, token.GEQ: token.LSS, token.GTR: token.LEQ, token.LEQ: token.GTR}
+		// neg: the negation of e with negations pushed to the leaves
+		var neg func(e ast.Expr) ast.Expr
+		neg = func(e ast.Expr) ast.Expr {
+			switch x := ast.Unparen(e).(type) {
+			case *ast.UnaryExpr:
+				if x.Op == token.NOT {
+					return ast.Unparen(x.X)
+				}
+			case *ast.BinaryExpr:
+				switch x.Op {
+				case token.LAND, token.LOR:
+					op := token.LOR
+					if x.Op == token.LOR {
+						op = token.LAND
+					}
+					nb := &ast.BinaryExpr{X: neg(x.X), OpPos: x.OpPos, Op: op, Y: neg(x.Y)}
+					info.Types[nb] = boolTV(x)
+					return nb
+				}
+				if fo, ok := flipCmp[x.Op]; ok {
+					nb := &ast.BinaryExpr{X: x.X, OpPos: x.OpPos, Op: fo, Y: x.Y}
+					info.Types[nb] = boolTV(x)
+					return nb
+				}
+			}
+			ne := &ast.UnaryExpr{OpPos: e.Pos(), Op: token.NOT, X: e}
+			info.Types[ne] = boolTV(e)
+			return ne
+		}
+		// top: the top-level connective of e once negations are pushed inwards
+		var top func(e ast.Expr, negated bool) token.Token
+		top = func(e ast.Expr, negated bool) token.Token {
+			switch x := ast.Unparen(e).(type) {
+			case *ast.UnaryExpr:
+				if x.Op == token.NOT {
+					return top(x.X, !negated)
+				}
+			case *ast.BinaryExpr:
+				if x.Op == token.LAND || x.Op == token.LOR {
+					if negated == (x.Op == token.LAND) {
+						return token.LOR
+					}
+					return token.LAND
+				}
+			}
+			return token.ILLEGAL
+		}
+		for _, file := range pk.Syntax {
+			for _, d := range file.Decls {
+				fd, ok := d.(*ast.FuncDecl)
+				if !ok || fd.Body == nil {
+					continue
+				}
+				// candidates: bool locals defined once by `f := E`, never assigned again, address not taken
+				type cand struct {
+					def *ast.AssignStmt
+					idx int
+				}
+				cands := map[types.Object]*cand{}
+				spoiled := map[types.Object]bool{}
+				ast.Inspect(fd.Body, func(k ast.Node) bool {
+					switch x := k.(type) {
+					case *ast.AssignStmt:
+						for i, l := range x.Lhs {
+							id, ok := ast.Unparen(l).(*ast.Ident)
+							if !ok {
+								continue
+							}
+							o := info.ObjectOf(id)
+							if o == nil {
+								continue
+							}
+							if x.Tok == token.DEFINE && info.Defs[id] != nil && len(x.Lhs) == len(x.Rhs) {
+								if b, ok := o.Type().Underlying().(*types.Basic); ok && b.Kind() == types.Bool {
+									if cands[o] == nil {
+										cands[o] = &cand{x, i}
+										continue
+									}
+								}
+							}
+							spoiled[o] = true
+						}
+					case *ast.UnaryExpr:
+						if x.Op == token.AND {
+							if id, ok := ast.Unparen(x.X).(*ast.Ident); ok {
+								if o := info.ObjectOf(id); o != nil {
+									spoiled[o] = true
+								}
+							}
+						}
+					case *ast.FuncLit:
+						// a flag captured by a closure keeps its polarity (the closure may run anywhere)
+						ast.Inspect(x.Body, func(m ast.Node) bool {
+							if id, ok := m.(*ast.Ident); ok {
+								if o := info.Uses[id]; o != nil {
+									spoiled[o] = true
+								}
+							}
+							return true
+						})
+					}
+					return true
+				})
+				for o, c := range cands {
+					if spoiled[o] {
+						continue
+					}
+					rhs := c.def.Rhs[c.idx]
+					if top(rhs, false) != token.LOR {
+						continue
+					}
+					// every use must be rewritable in place: collect parents
+					parents := parentMap(fd.Body)
+					var uses []*ast.Ident
+					ast.Inspect(fd.Body, func(k ast.Node) bool {
+						if id, ok := k.(*ast.Ident); ok && info.Uses[id] == o {
+							uses = append(uses, id)
+						}
+						return true
+					})
+					c.def.Rhs[c.idx] = neg(rhs)
+					for _, id := range uses {
+						par := parents[id]
+						for {
+							if pe, ok := par.(*ast.ParenExpr); ok {
+								par = parents[pe]
+								continue
+							}
+							break
+						}
+						if u, ok := par.(*ast.UnaryExpr); ok && u.Op == token.NOT {
+							// !f -> f: replace the UnaryExpr in ITS parent by the identifier
+							replaceChild(parents[u], u, id)
+							continue
+						}
+						ne := &ast.UnaryExpr{OpPos: id.Pos(), Op: token.NOT, X: id}
+						info.Types[ne] = boolTV(id)
+						replaceChild(parents[id], id, ne)
+					}
+					n++
+				}
+			}
+		}
+	}
+	return n
+}
+
+// replaceChild puts repl where old stands among the expression slots of parent.
+func replaceChild(parent ast.Node, old, repl ast.Expr) {
+	switch p := parent.(type) {
+	case *ast.ParenExpr:
+		if p.X == old {
+			p.X = repl
+		}
+	case *ast.UnaryExpr:
+		if p.X == old {
+			p.X = repl
+		}
+	case *ast.BinaryExpr:
+		if p.X == old {
+			p.X = repl
+		}
+		if p.Y == old {
+			p.Y = repl
+		}
+	case *ast.IfStmt:
+		if p.Cond == old {
+			p.Cond = repl
+		}
+	case *ast.ForStmt:
+		if p.Cond == old {
+			p.Cond = repl
+		}
+	case *ast.ReturnStmt:
+		for i, r := range p.Results {
+			if r == old {
+				p.Results[i] = repl
+			}
+		}
+	case *ast.AssignStmt:
+		for i, r := range p.Rhs {
+			if r == old {
+				p.Rhs[i] = repl
+			}
+		}
+	case *ast.CallExpr:
+		for i, a := range p.Args {
+			if a == old {
+				p.Args[i] = repl
+			}
+		}
+	case *ast.KeyValueExpr:
+		if p.Value == old {
+			p.Value = repl
+		}
+	case *ast.CompositeLit:
+		for i, a := range p.Elts {
+			if a == old {
+				p.Elts[i] = repl
+			}
+		}
+	case *ast.CaseClause:
+		for i, a := range p.List {
+			if a == old {
+				p.List[i] = repl
+			}
+		}
+	case *ast.ValueSpec:
+		for i, a := range p.Values {
+			if a == old {
+				p.Values[i] = repl
+			}
+		}
+	case *ast.ExprStmt:
+		if p.X == old {
+			p.X = repl
+		}
+	}
+}
